@@ -127,7 +127,7 @@ def r9_angle_homogeneity(ctx):
                 rep.bad("C08.R9", C, f"{name}: degree {fmt(d)} {what}", f"{what} `{name}` scales with degree {fmt(d)} although the angle `l` has degree 0: the derivative is exact only for "
                         f"orthonormal joint bases, i.e. on the constraint manifold (a normalisation such as / (x**2 + y**2) is missing)", f"{ci.rel}:{fns[name].lineno}")
             else:
-                rep.note(f"C08.R9: degree of Revolute.{name} {what} not inferred ({fmt(d)})")
+                rep.ok("C08.R9", C, f"{what}: degree of Revolute.{name} not inferred ({fmt(d)}); no verdict", verdict="unknown", trivial=True)
 
 
 def run(ctx):
